@@ -8,6 +8,7 @@ import (
 	"github.com/indexsupply/shovel/shovel/glf"
 	"io"
 	"log/slog"
+	"net"
 	"os"
 	"regexp"
 	"sort"
@@ -344,6 +345,31 @@ func runC18(e *core.Env) error {
 		}
 		node.Close()
 		e.Add(core.Case{Impl: "ran", Spec: "ran", Key: "c18-fresh-plans", Nontrivial: true, Tags: []string{"scenarios", "fresh-plan-shared-by-partitions"}})
+	}
+	// (G) a source whose ws_url cannot be dialled (nothing listens there): the listener gives up with an error, the
+	// next Latest starts it again — while several tasks sharing the client keep asking for the head
+	{
+		chain := transferChain(6, uint64(5+e.Seed))
+		node := simnode.NewNode(chain)
+		dead, _ := net.Listen("tcp", "127.0.0.1:0")
+		deadURL := "ws://" + dead.Addr().String() + "/ws"
+		dead.Close()
+		cl := jrpc2.New(node.URL()).WithWSURL(deadURL).WithPollDuration(2 * time.Millisecond)
+		var wg sync.WaitGroup
+		stop := time.Now().Add(time.Duration(e.N(400, 1500)) * time.Millisecond)
+		for g := 0; g < 4; g++ {
+			wg.Add(1)
+			go func() {
+				defer wg.Done()
+				for time.Now().Before(stop) {
+					core.Protect(func() string { cl.Latest(ctx, node.URL(), 0); return "" })
+					time.Sleep(time.Millisecond)
+				}
+			}()
+		}
+		wg.Wait()
+		node.Close()
+		e.Add(core.Case{Impl: "ran", Spec: "ran", Key: "c18-ws-unreachable", Nontrivial: true, Tags: []string{"scenarios", "ws-url-cannot-be-dialled"}})
 	}
 	// (D) the manager with restarts
 	for s := 0; s < e.N(3, 20); s++ {
